@@ -17,9 +17,9 @@
       text satisfies) — `render_parse`;
     * in collect-all mode the messages and `ErrorInfo.field`s are exactly the supplied fields that
       `validate` rejects, with NO condition on the texts (`collect_all_exact`).
-  What remains false: a class / field name containing a character outside `[\w.]` — e.g. a valid
-  identifier with a combining mark — still loses its field (`non_word_name_loses_field`,
-  `statement_false`).
+  What remains false (since /repo <FIXID3> identifiers of every script keep their field): a class
+  name that is not an identifier — `type('My Class', …)` — still loses it
+  (`non_word_name_loses_field`, `non_identifier_class_name_loses_field`, `statement_false`).
 -/
 import TypedpyModel.Lemmas.Errors
 namespace Typedpy.C18
@@ -163,24 +163,42 @@ theorem semicolon_value_demoted :
       ⟨some "Foo.s".toList, none, "Got 'a;b'; Expected a maximum length of 2".toList⟩ := by
   decide
 
-/-- a field called `é` (`'é'.isalnum()` holds in Python) keeps its field -/
+/-- the field group of today's errors.py is a sound `Word` -/
+theorem pyFieldWord_sound : Word.Sound pyFieldWord :=
+  ⟨fun c h => by simp [pyFieldWord, h], by decide⟩
+
+/-- a field called `é` keeps its field -/
 theorem non_ascii_name_keeps_field :
-    (parseMsg (fun c => asciiWord c || c == 'é')
+    (parseMsg pyFieldWord
       (Msg.render ⟨some "Foo".toList, "é".toList, .gotLast, "'x'".toList,
         "Expected <class 'int'>".toList⟩)).field = some "Foo.é".toList := by decide
 
-/-- finding `field-lost:non-word-name` (what is left of the name findings): a path containing any
-    character outside `[\w.]` never comes back as the field, whatever the rest -/
+/-- finding `field-lost:non-word-name`: a path containing any character outside the field group
+    never comes back as the field, whatever the rest -/
 theorem non_word_name_loses_field (W : Word) (f rest : Text) (h : identOk W f = false) :
     (parseMsg W (f ++ ':' :: ' ' :: rest)).field ≠ some f := by
   intro hf
   rw [field_chars_necessary W _ f hf] at h
   exact absurd h (by simp)
 
-/-- … e.g. the valid Python identifier `x` + U+0301 (combining acute; not `isalnum`) -/
-theorem combining_mark_name_loses_field :
+/-- the identifier part of that finding is fixed by /repo <FIXID3>: valid identifiers with combining
+    marks / vowel signs — `x` + U+0301, Hindi `नाम` (U+093E is a vowel sign), Thai `ชื่อ` — keep their
+    field under today's field group, and were lost under `[\w.]+` (where such characters are not
+    alphanumeric: `asciiWord` answers as `str.isalnum` does for them) -/
+theorem combining_mark_name_keeps_field :
+    (parseMsg pyFieldWord (Msg.render ⟨some "Foo".toList, ['x', '́'], .gotLast, "'a'".toList,
+      "Expected <class 'int'>".toList⟩)).field = some ("Foo.".toList ++ ['x', '́']) ∧
+    (parseMsg pyFieldWord "Foo.नाम: Expected <class 'int'>; Got 'a'".toList).field = some "Foo.नाम".toList ∧
+    (parseMsg pyFieldWord "Foo.ชื่อ: Got 'ab'; Expected a maximum length of 1".toList).field = some "Foo.ชื่อ".toList ∧
     (parseMsg asciiWord (Msg.render ⟨some "Foo".toList, ['x', '́'], .gotLast, "'a'".toList,
       "Expected <class 'int'>".toList⟩)).field = none := by decide
+
+/-- what is left of the finding: a class name that is not an identifier (`type('My Class', …)`,
+    `a-b`, `Gen[int]`) still loses the field -/
+theorem non_identifier_class_name_loses_field :
+    (parseMsg pyFieldWord "My Class.i: Expected <class 'int'>; Got 'x'".toList).field = none ∧
+    (parseMsg pyFieldWord "a-b.i: Expected <class 'int'>; Got 'x'".toList).field = none ∧
+    (parseMsg pyFieldWord "Gen[int].i: Expected <class 'int'>; Got 'x'".toList).field = none := by decide
 
 /-- former findings `no-path:unnamed-inner-field:deser-collection`, `no-path:unhashable:deser-set`
     (fixed by /repo 23519e1; a regression that re-opens them produces these texts again): texts
@@ -420,10 +438,12 @@ def exTexts : Texts := fun s =>
   if s.loc.shape == .gotLast then ("'x'".toList, "Expected <class 'int'>".toList)
   else ("'abc'".toList, "Expected a maximum length of 2".toList)
 
-/-- a class whose field is the valid identifier `x` + U+0301 (not `isalnum`, in Python as in
-    `asciiWord`) -/
-def exMarkFields : List (String × FieldDecl) := [(String.ofList ['x', '́'], .integer {})]
-def exMarkKw : List (String × PyVal) := [(String.ofList ['x', '́'], .str "x")]
+/-- a class created as `type('My Class', (Structure,), {'i': Integer()})`: the space is outside
+    the field group of today's errors.py -/
+def exSpaceClass : ClassOpts := { name := "My Class", required := [] }
+def exMarkFields : List (String × FieldDecl) := [("i", .integer {})]
+def exMarkKw : List (String × PyVal) := [("i", .str "x")]
+def exPyCodec : Codec := ⟨fun _ => [], fun _ => .invalid, pyFieldWord⟩
 
 theorem asciiWord_sound : Word.Sound asciiWord := ⟨fun _ h => h, by decide⟩
 
@@ -433,21 +453,20 @@ theorem exTexts_wellFormed : TextsWellFormed exTexts := by
   cases s.loc.shape <;> decide
 
 theorem ex_raises :
-    constructRaises exOracles exTexts true exClass exMarkFields exMarkKw =
-      .single .typeErr ("Foo.".toList ++ ['x', '́'] ++ ": Expected <class 'int'>; Got 'x'".toList) := by
+    constructRaises exOracles exTexts true exSpaceClass exMarkFields exMarkKw =
+      .single .typeErr "My Class.i: Expected <class 'int'>; Got 'x'".toList := by
   decide
 
 theorem statement_false : ¬ Statement := by
   intro h
-  have := h exOracles exTexts exCodec true exClass exMarkFields exMarkKw asciiWord_sound (by simp)
+  have := h exOracles exTexts exPyCodec true exSpaceClass exMarkFields exMarkKw pyFieldWord_sound (by simp)
     exTexts_wellFormed (by decide)
   unfold Reported at this
   rw [ex_raises] at this
   obtain ⟨n, _, _, i, hi, ⟨p, hp, _⟩, _⟩ := this
   simp only [readable, if_true, Except.ok.injEq, Out.single.injEq] at hi
   rw [← hi, internal_field] at hp
-  have : (parseMsg exCodec.word
-      ("Foo.".toList ++ ['x', '́'] ++ ": Expected <class 'int'>; Got 'x'".toList)).field = none := by
+  have : (parseMsg exPyCodec.word "My Class.i: Expected <class 'int'>; Got 'x'".toList).field = none := by
     decide
   rw [this] at hp
   simp at hp
